@@ -517,6 +517,16 @@ def run(repo, rep, tier):
               construct="error-info-complete", where=L.where(ei))
     error_variable_scope(repo, rep)
     handler_locals_distinct(repo, rep)
+    # every on-error element gets the handler: there is no exit of the
+    # emitter in front of the try statement ("nothing in here can fail" is
+    # not decidable from the guarded code: macros, fillers and the
+    # translation function are called without a token)
+    vo = repo.func("chameleon.compiler.Compiler.visit_OnError")
+    rets = [r_ for r_ in ast.walk(vo.node) if isinstance(r_, ast.Return)]
+    rep.check(len(rets) == 1 and rets[0] is vo.node.body[-1], "R13.1",
+              vo.qualname, "the emitter has one exit, behind the try "
+              "statement (%d return statements)" % len(rets),
+              construct="handler-always-emitted", where=L.where(vo))
     # ... and line / column are the position's items as they are: lines count
     # from 1 but columns from 0, so a truth test or arithmetic on them loses
     # a legitimate value
